@@ -166,6 +166,35 @@ func init() {
 		pub, _ := fin.Public()
 		return "ok " + ils + " " + keyFields(fin) + " " + hx(bin) + " | " + keyFields(pub)
 	}
+	// bip_reload <A> <B> : one key object decodes A, is asked for its text and binary forms, then decodes B: every
+	// answer about B equals the answer of a fresh object (nothing remembered from A may leak, whatever A and B share)
+	opImpl["bip_reload"] = func(a []string) string {
+		A, B := unhx(a[0]), unhx(a[1])
+		var k, fresh ecckd.ExtendedKey
+		if err := fresh.UnmarshalBinary(B); err != nil {
+			return "err " + bipErrName(err)
+		}
+		if err := k.UnmarshalBinary(A); err != nil {
+			return "err " + bipErrName(err)
+		}
+		_ = k.String()
+		_, _ = k.MarshalBinary()
+		_, _ = k.Public()
+		if err := k.UnmarshalBinary(B); err != nil {
+			return "err " + bipErrName(err)
+		}
+		mb, _ := k.MarshalBinary()
+		fb, _ := fresh.MarshalBinary()
+		if k.String() != fresh.String() || !bytes.Equal(mb, fb) || keyFields(&k) != keyFields(&fresh) {
+			return "STALE-AFTER-RELOAD " + k.String() + " vs " + fresh.String()
+		}
+		kp, _ := k.Public()
+		fp, _ := fresh.Public()
+		if kp.String() != fp.String() {
+			return "STALE-PUBLIC-AFTER-RELOAD"
+		}
+		return "ok"
+	}
 	// bip_unmarshal <bytes> : decode, scribble over the input, re-encode: the key must not change
 	opImpl["bip_unmarshal"] = func(a []string) string {
 		data := unhx(a[0])
@@ -475,7 +504,49 @@ func fixChecksum(b []byte) []byte {
 	return b
 }
 
+// checksumCollision: two different valid serialisations whose 4-byte checksums coincide (birthday search over the
+// child-number field; ~80k double-SHA256 evaluations) - for anything that remembers a key by a short tag
+func checksumCollision(bin []byte, limit int) ([]byte, []byte) {
+	seen := map[[4]byte]uint32{}
+	b := append([]byte{}, bin...)
+	for i := 0; i < limit; i++ {
+		binary.BigEndian.PutUint32(b[9:13], uint32(i))
+		s1 := sha256.Sum256(b[:78])
+		s2 := sha256.Sum256(s1[:])
+		var tag [4]byte
+		copy(tag[:], s2[:4])
+		if j, ok := seen[tag]; ok {
+			A, B := append([]byte{}, b...), append([]byte{}, b...)
+			binary.BigEndian.PutUint32(A[9:13], j)
+			return fixChecksum(A), fixChecksum(B)
+		}
+		seen[tag] = uint32(i)
+	}
+	return nil, nil
+}
+
 func genC13(h *H) {
+	// a long-lived object reloaded with other keys, incl. a pair whose checksums collide
+	if m, err := ecckd.FromBitcoinSeed(h.randBytes(32)); err == nil {
+		c, _ := m.Child(uint32(h.rng.Intn(1 << 31)))
+		p, _ := m.Public()
+		var bins [][]byte
+		for _, k := range []*ecckd.ExtendedKey{m, c, p} {
+			if k != nil {
+				b, _ := k.MarshalBinary()
+				bins = append(bins, b)
+			}
+		}
+		for i := range bins {
+			for j := range bins {
+				h.doLine("reload", "bip_reload "+hx(bins[i])+" "+hx(bins[j]))
+			}
+		}
+		if A, B := checksumCollision(bins[0], 400000); A != nil {
+			h.doLine("reload-checksum-collision", "bip_reload "+hx(A)+" "+hx(B))
+			h.doLine("reload-checksum-collision", "bip_reload "+hx(B)+" "+hx(A))
+		}
+	}
 	n := 6 * h.budget
 	for it := 0; it < n; it++ {
 		seed := h.randBytes(16 + h.rng.Intn(49))
